@@ -292,6 +292,97 @@ fn unit_lattice(tier: Tier) -> Vec<[f32; 3]> {
     (0..l * l * l).map(|i| [a[i / (l * l)], a[(i / l) % l], a[i % l]]).collect()
 }
 
+/// Pixel values of the uniform large images: one per class a per-image tally could count
+/// (NaN, +inf, -inf, negative, above 1, zero, huge, subnormal) and a mixed pixel.
+const UNIFORM: [[f32; 3]; 9] = [
+    [f32::NAN; 3],
+    [f32::INFINITY; 3],
+    [f32::NEG_INFINITY; 3],
+    [-1.0; 3],
+    [2.0; 3],
+    [0.0; 3],
+    [1e30; 3],
+    [1e-40; 3],
+    [f32::NAN, -0.5, f32::INFINITY],
+];
+
+/// Every single-stage op plus a covering set of composite ones (every curve, every matrix, every
+/// storage class at least once).
+pub fn cover_ops() -> Vec<Op> {
+    let mut v = single_stage_ops();
+    for &t in SUPPORTED_TRANSFERS.iter() {
+        v.push(Op::RgbToXyb(t, CP::BT709));
+        v.push(Op::XybToRgb(t, CP::BT709));
+        v.push(Op::LinToYuv(MC::BT709, false, 8, false, t, CP::BT709));
+        v.push(Op::XybToYuv(MC::BT709, true, 10, true, t, CP::BT709));
+    }
+    for &m in STD_MATRICES.iter() {
+        for (n, wide) in depth_storage3() {
+            v.push(Op::LinToYuv(m, n == 10, n, wide, TC::BT1886, CP::BT2020));
+        }
+    }
+    v
+}
+
+/// One operation of every kind, with specified metadata and (where the operation takes a
+/// config) with every field Unspecified: state that accumulates over calls is keyed on the kind
+/// of call, not on the pixel values.
+pub fn rep_ops() -> Vec<Op> {
+    let (t, p) = (TC::SRGB, CP::BT709);
+    let (tu, pu, mu) = (TC::Unspecified, CP::Unspecified, MC::Unspecified);
+    vec![
+        Op::LinToXyb, Op::XybToLin, Op::LinToHsl, Op::HslToLin,
+        Op::RgbToLin(t, p), Op::LinToRgb(t, p), Op::RgbToLin(tu, pu), Op::LinToRgb(tu, pu),
+        Op::RgbToXyb(t, p), Op::XybToRgb(t, p), Op::RgbToXyb(tu, pu), Op::XybToRgb(tu, pu),
+        Op::Encode(MC::BT709, false, 8, false), Op::Encode(MC::BT709, true, 10, true), Op::Encode(mu, false, 8, false),
+        Op::LinToYuv(MC::BT709, false, 8, false, t, p), Op::LinToYuv(mu, false, 8, false, tu, pu), Op::LinToYuv(mu, true, 10, true, t, p),
+        Op::LinToYuv(MC::BT709, false, 8, false, tu, p), Op::LinToYuv(MC::BT709, false, 8, false, t, pu),
+        Op::XybToYuv(MC::BT709, false, 8, false, t, p), Op::XybToYuv(mu, false, 8, false, tu, pu),
+    ]
+}
+
+const REPS: usize = 65_600;
+
+fn out_digest(o: &Result<Result<Out, String>, String>) -> String {
+    match o {
+        Ok(Ok(Out::Floats(v))) => format!("floats {:?}", v.iter().map(|p| p.map(f32::to_bits)).collect::<Vec<_>>()),
+        Ok(Ok(Out::Codes { max_seen, max_allowed, rewrap_ok })) => format!("codes {max_seen} {max_allowed} {rewrap_ok}"),
+        Ok(Err(e)) => format!("err {e}"),
+        Err(p) => format!("panic {}", panic_site(p)),
+    }
+}
+
+/// REPS identical calls on one fresh thread: none may panic (a wrapping tally only does so in a
+/// checked build) and every result must equal the first one.
+fn rep_case(acc: &mut Acc, idx: u64, op: &Op) {
+    let case = || json!({"kind":"c13rep","op":op_json(op)});
+    let op2 = *op;
+    let r: Option<(usize, String, String)> = std::thread::spawn(move || {
+        let px = vec![[0.25f32, 0.5, 0.75], [0.1, 0.9, 0.4]];
+        let first = out_digest(&run_op(&op2, px.clone(), 2, 1));
+        for k in 1..REPS {
+            let d = out_digest(&run_op(&op2, px.clone(), 2, 1));
+            if d != first {
+                return Some((k, first, d));
+            }
+        }
+        None
+    })
+    .join()
+    .expect("repetition thread");
+    acc.states += 1;
+    acc.transitions += REPS as u64;
+    let opname = format!("{op:?}");
+    let opclass = opname.split('(').next().unwrap_or("").to_string();
+    match r {
+        None => acc.bucket("repeated calls: every one of 65,600 results equals the first", 1),
+        Some((k, first, d)) => {
+            let key = if d.starts_with("panic") { format!("panic op={opclass} after repeated calls {}", &d[6..]) } else { format!("result-changes-after-repeated-calls op={opclass}") };
+            acc.violation(idx, key, format!("{opname}: call number {} on one thread gives `{}`, the first call gave `{}`", k + 1, d.chars().take(200).collect::<String>(), first.chars().take(120).collect::<String>()), case());
+        }
+    }
+}
+
 const SHAPES: [(usize, usize); 6] = [(0, 0), (0, 3), (2, 0), (1, 1), (1, 7), (7, 1)];
 
 fn shape_px(k: &[f32], i: u64, w: usize, h: usize) -> Vec<[f32; 3]> {
@@ -307,6 +398,8 @@ pub fn staged(tier: Tier) -> Staged {
             ("stratified bit patterns per component".into(), strat_ops().len() as u64 * 4),
             ("unit-cube lattice: finite in, finite out".into(), (single_stage_ops().len() + composite_ops(tier).len()) as u64),
             ("degenerate shapes: zero-pixel, single-pixel, one-column images".into(), (single_stage_ops().len() + composite_ops(tier).len()) as u64),
+            ("uniform special images of 65,537 pixels".into(), cover_ops().len() as u64 * UNIFORM.len() as u64),
+            ("65,600 repetitions of one call on one thread".into(), rep_ops().len() as u64),
         ],
         run: run_stage,
         case_of,
@@ -362,6 +455,22 @@ fn run_stage(tier: Tier, stage: usize, lo: u64, hi: u64) -> Acc {
                 }
             })
         }
+        5 => {
+            let ops = cover_ops();
+            par_chunks(n, 1, |acc, a, _| {
+                let i = lo + a;
+                let (op, u) = (&ops[i as usize / UNIFORM.len()], UNIFORM[i as usize % UNIFORM.len()]);
+                let px = vec![u; 65_537];
+                check_image(acc, i, op, "uniform special image", &px, 65_537, 1, false, &|| json!({"kind":"c13uniform","op":op_json(op),"u":i as usize % UNIFORM.len()}));
+            })
+        }
+        6 => {
+            let ops = rep_ops();
+            par_chunks(n, 1, |acc, a, _| {
+                let i = lo + a;
+                rep_case(acc, i, &ops[i as usize]);
+            })
+        }
         _ => {
             let mut ops = single_stage_ops();
             ops.extend(composite_ops(tier));
@@ -393,6 +502,8 @@ fn case_of(tier: Tier, stage: usize, i: u64) -> Value {
             ops.extend(composite_ops(tier));
             json!({"kind":"c13shapes","op":op_json(&ops[i as usize]),"i":i,"tier":tier.name()})
         }
+        5 => json!({"kind":"c13uniform","op":op_json(&cover_ops()[i as usize / UNIFORM.len()]),"u":i as usize % UNIFORM.len()}),
+        6 => json!({"kind":"c13rep","op":op_json(&rep_ops()[i as usize])}),
         _ => {
             let mut ops = single_stage_ops();
             ops.extend(composite_ops(tier));
@@ -406,7 +517,7 @@ pub fn run(tier: Tier) -> Report {
     let st = staged(tier);
     run_staged(tier, &st, &mut rep);
     rep.bound = format!(
-        "stages (each in a child process): {}; special alphabet = 48 values (+-0, subnormals, thresholds, 1.5, 255, 65535.5, 1e10, 3e38, max, inf, quiet/signalling NaN), full cubes through all 14x11 curve/primaries pairs in both directions, all 140 encode configs, XYB and HSL both ways, and the composite LinearRgb/Xyb->Yuv, Rgb<->Xyb paths over 14 curves x 11 primaries x 7 matrices x 2 ranges x depths; stratified = every f32 bit pattern whose low {} bits are all-0 or all-1 ({} patterns) on each component in turn (others 0.5) and on all three; unit cube lattice {}^3 for finiteness; every conversion on 0x0, 0x3, 2x0, 1x1, 1x7 and 7x1 images of special values (0x3 only where no YUV frame is built)",
+        "stages (each in a child process): {}; special alphabet = 48 values (+-0, subnormals, thresholds, 1.5, 255, 65535.5, 1e10, 3e38, max, inf, quiet/signalling NaN), full cubes through all 14x11 curve/primaries pairs in both directions, all 140 encode configs, XYB and HSL both ways, and the composite LinearRgb/Xyb->Yuv, Rgb<->Xyb paths over 14 curves x 11 primaries x 7 matrices x 2 ranges x depths; stratified = every f32 bit pattern whose low {} bits are all-0 or all-1 ({} patterns) on each component in turn (others 0.5) and on all three; unit cube lattice {}^3 for finiteness; every conversion on 0x0, 0x3, 2x0, 1x1, 1x7 and 7x1 images of special values (0x3 only where no YUV frame is built); 65,537-pixel images uniformly NaN / +inf / -inf / -1 / 2 / 0 / 1e30 / subnormal / mixed through every single-stage and a covering set of composite conversions; 65,600 identical calls of every kind of conversion (specified and Unspecified metadata) on one thread, no panic and every result equal to the first",
         st.stages.iter().map(|(n, t)| format!("{n}: {t} cases")).collect::<Vec<_>>().join("; "),
         strat_bits(tier), strat_len(tier), tier.pick(15, 23)
     );
@@ -418,6 +529,9 @@ pub fn run(tier: Tier) -> Report {
     rep.guard_bucket("unit-cube lattice: float image produced");
     rep.guard_bucket("unit-cube lattice: YUV produced, all codes valid, re-wrappable");
     rep.guard_bucket("degenerate shapes: float image produced");
+    rep.guard_bucket("uniform special image: float image produced");
+    rep.guard_bucket("uniform special image: YUV produced, all codes valid, re-wrappable");
+    rep.guard_bucket("repeated calls: every one of 65,600 results equals the first");
     rep.guard_bucket("degenerate shapes: YUV produced, all codes valid, re-wrappable");
     rep
 }
@@ -427,6 +541,8 @@ fn op_from(s: &str, tier: Tier) -> Option<Op> {
     ops.extend(composite_ops(Tier::Thorough));
     ops.extend(composite_ops(tier));
     ops.extend(strat_ops());
+    ops.extend(cover_ops());
+    ops.extend(rep_ops());
     ops.into_iter().find(|o| format!("{o:?}") == s)
 }
 
@@ -448,6 +564,11 @@ pub fn replay(case: &Value) -> (bool, String) {
             check_image(&mut acc, 0, &op, "stratified patterns", &px, n, 1, false, &|| json!(null));
         }
         "c13stratcase" => strat_case(&mut acc, tier, 0, &op, case["placement"].as_u64().unwrap() as u8),
+        "c13uniform" => {
+            let px = vec![UNIFORM[case["u"].as_u64().unwrap() as usize]; 65_537];
+            check_image(&mut acc, 0, &op, "uniform special image", &px, 65_537, 1, false, &|| json!(null));
+        }
+        "c13rep" => rep_case(&mut acc, 0, &op),
         "c13shape" | "c13shapes" => {
             let i = case["i"].as_u64().unwrap();
             let to_yuv = matches!(op, Op::Encode(..) | Op::LinToYuv(..) | Op::XybToYuv(..));
